@@ -261,6 +261,12 @@ func init() {
 		for k := range out {
 			out[k] = unliftV(i.nondet("kdf", 8), types.Typ[types.Uint8])
 		}
+		// an ideal KDF does not output the one string everybody knows
+		zeros := make([]value, keyLen)
+		for k := range zeros {
+			zeros[k] = uint8(0)
+		}
+		i.assume(i.tt.BNot(i.bytesEqTerm(out, zeros)))
 		// collision-freeness: differs from every earlier output
 		for _, rec := range i.kdfs {
 			if len(rec.out) == len(out) {
